@@ -471,7 +471,7 @@ func apiReentrancy(t *testing.T, h *H) {
 	pEvent := newProbe("server event handler calls OnEvent / OffEvent / OnceEvent / OffAll / Join / Emit / Sockets")
 	pDisc := newProbe("server disconnect handler calls OnDisconnect / OffDisconnect / Rooms / Namespace.Sockets")
 	pDiscing := newProbe("server disconnecting handler calls OnDisconnecting / Leave / Join / Emit")
-	pAckS := newProbe("server ack callback calls Emit / OnEvent / Disconnect")
+	pAckS := newProbe("server ack callback calls Emit / OnEvent / Emit with an ack function")
 	connected := make(chan sio.ServerSocket, 4)
 	nsp.OnConnection(func(s sio.ServerSocket) {
 		run(pConn, func() {
@@ -497,7 +497,7 @@ func apiReentrancy(t *testing.T, h *H) {
 				nsp.Sockets()
 				nsp.To("r").Emit("x", 1)
 				s.Emit("q", 1, func(v int) {
-					run(pAckS, func() { s.Emit("back", 2); s.OnEvent("e4", func() {}) })
+					run(pAckS, func() { s.Emit("back", 2); s.OnEvent("e4", func() {}); s.Emit("q", 3, func(v int) {}) })
 				})
 			})
 		})
@@ -527,7 +527,7 @@ func apiReentrancy(t *testing.T, h *H) {
 	pOpen := newProbe("manager open handler calls OnOpen / OffOpen / Socket")
 	pCConn := newProbe("client connect handler calls OnConnect / OnEvent / Emit / Connected")
 	pCEvent := newProbe("client event handler calls OnEvent / OffEvent / OffAll / Emit")
-	pCAck := newProbe("client ack callback calls Emit / OnEvent")
+	pCAck := newProbe("client ack callback calls Emit / OnEvent / Emit with an ack function")
 	pCDisc := newProbe("client disconnect handler calls OnDisconnect / Connect / Active")
 	pClose := newProbe("manager close handler calls OnClose / Socket")
 	c := m.Socket("/", nil)
@@ -552,7 +552,7 @@ func apiReentrancy(t *testing.T, h *H) {
 			c.OffEvent("z2")
 			c.Emit("e", 4)
 			c.Emit("q2", 1, func(v int) {
-				run(pCAck, func() { c.Emit("e", 5); c.OnEvent("z3", func() {}) })
+				run(pCAck, func() { c.Emit("e", 5); c.OnEvent("z3", func() {}); c.Emit("q2", 2, func(v int) {}) })
 			})
 		})
 	})
